@@ -45,6 +45,7 @@ type DB struct {
 	//
 	haltLockAndGuard atomic.Value // local halt lock & guard, if currently held
 	remoteHaltLock   atomic.Value // remote halt lock, if currently held
+	haltMu           sync.Mutex   // serializes release/expiry of the local halt lock with forwarded commits
 
 	chksums struct { // database page checksums
 		mu     sync.Mutex
@@ -289,6 +290,9 @@ var errHaltLockAlreadyAcquired = errors.New("litefs: halt lock already acquired"
 func (db *DB) ReleaseHaltLock(ctx context.Context, id int64) {
 	TraceLog.Printf("[ReleaseHaltLock(%s)]:", db.name)
 
+	db.haltMu.Lock()
+	defer db.haltMu.Unlock()
+
 	curr := db.haltLockAndGuard.Load().(*haltLockAndGuard)
 	if curr == nil {
 		TraceLog.Printf("[ReleaseHaltLock.Done(%s)]: no-lock", db.name)
@@ -310,6 +314,13 @@ func (db *DB) ReleaseHaltLock(ctx context.Context, id int64) {
 
 // EnforceHaltLockExpiration unsets the HALT lock if it has expired.
 func (db *DB) EnforceHaltLockExpiration(ctx context.Context) {
+	// Skip this round if a forwarded commit is in flight; the caller holds the
+	// store mutex, which the commit needs as well (MarkDirty).
+	if !db.haltMu.TryLock() {
+		return
+	}
+	defer db.haltMu.Unlock()
+
 	curr := db.haltLockAndGuard.Load().(*haltLockAndGuard)
 	if curr == nil {
 		return
@@ -322,6 +333,32 @@ func (db *DB) EnforceHaltLockExpiration(ctx context.Context) {
 	// Clear lock & unlock its guards.
 	db.haltLockAndGuard.CompareAndSwap(curr, (*haltLockAndGuard)(nil))
 	curr.guardSet.Unlock()
+}
+
+// ErrHaltLockNotHeld is returned when a forwarded transaction does not carry
+// the identifier of the halt lock that is currently granted on the database.
+var ErrHaltLockNotHeld = errors.New("litefs: halt lock not held by caller")
+
+// CommitForwardedLTX writes & applies an LTX file that was forwarded by the
+// holder of the halt lock with the given identifier. The lock cannot be
+// released or expired while the file is copied & applied.
+func (db *DB) CommitForwardedLTX(ctx context.Context, lockID int64, r io.Reader) error {
+	db.haltMu.Lock()
+	defer db.haltMu.Unlock()
+
+	curr := db.haltLockAndGuard.Load().(*haltLockAndGuard)
+	if curr == nil || lockID == 0 || curr.haltLock.ID != lockID {
+		return ErrHaltLockNotHeld
+	}
+
+	ltxPath, err := db.WriteLTXFileAt(ctx, r)
+	if err != nil {
+		return fmt.Errorf("write ltx file: %w", err)
+	}
+	if err := db.ApplyLTXNoLock(ltxPath, true); err != nil {
+		return fmt.Errorf("cannot apply ltx: %w", err)
+	}
+	return nil
 }
 
 // AcquireRemoteHaltLock acquires the remote lock and syncs the database to its
